@@ -183,7 +183,6 @@ def _decode(buffer: "_Buffer", fcp: "ref:FcpV2", type: "ref:Type") -> "dyn":
                     result == v and buffer.bitaddr == old(buffer.bitaddr) + len(wire(fcp, type, v))))
     ghost_arg("_decode_str", v=v)
     ghost_arg("_decode_struct", v=v)
-    lemma_before("_decode_struct", unpack_rep(data))
     ghost_arg("_decode_array", v=v)
     ghost_arg("_decode_dynamic_array", v=v)
     ghost_arg("_decode_optional", v=v)
